@@ -202,7 +202,7 @@ def specVerdict (L : Layout) (tol : Nat) (tr : List Entry) (status : String) : L
        | Resp.kbd Next.end_ => if status == "ok" then x else x.flag "C10/end-not-ok"
        | Resp.tab Next.end_ => if status == "ok" then x else x.flag "C10/end-not-ok"
        | _ => if status == "running" then x else x.flag "C20/returned-without-cause")
-    | none => x
+    | none => if status == "running" then x else x.flag "C20/returned-without-cause"   -- no call at all: the loop cannot have returned
   x.viol
 
 end TmVerif
